@@ -19,11 +19,11 @@ func runHistory(hs uint64, steps int, profile string, wr *bufio.Writer) {
 	c := sim.NewChain(sim.GenesisForProfile(profile, hs))
 	w := sim.NewWorld(c)
 	g := sim.NewGen(w, hs, profile)
-	enc.Encode(sim.M{"genesis": sim.M{"env": w.EnvJSON(), "state": w.Dump(c.Ctx())}, "hist": hs, "profile": profile})
+	enc.Encode(sim.M{"genesis": sim.M{"env": w.EnvJSON(), "state": w.Dump(w.C.Ctx())}, "hist": hs, "profile": profile})
 	for i := 0; i < steps; i++ {
 		op := g.Next()
 		res, o := w.Exec(&op)
-		enc.Encode(sim.M{"i": i, "op": o, "res": res, "state": w.Dump(c.Ctx()), "raw": op})
+		enc.Encode(sim.M{"i": i, "op": o, "res": res, "state": w.Dump(w.C.Ctx()), "raw": op})
 		if res.Res == "hang" {
 			// a goroutine is still spinning inside the application: this process is done
 			wr.Flush()
